@@ -51,6 +51,9 @@ def check (st : St) (op obs : String) : St × String :=
   | ["case", _] => ({}, "ok")
   | "cluster" :: n :: _ => ({ st with nodes := (Array.range (n.toNat?.getD 0)).map fun _ => {} }, "ok")
   | "ref" :: _ => (st, "ok")
+  | ["xdb-check"] =>
+    (st, if obs == "ok" || obs == "no-primary" then "ok"
+         else s!"FAIL faults have stopped and one primary is up, but a connected replica does not hold another database of the primary (one it is configured to replicate) at the primary's position: {obs.take 200}")
   | ["hist", pos, d] =>
     (match parsePos pos with
      | some p => ({ st with hist := (p, d) :: st.hist }, "ok")
